@@ -86,7 +86,7 @@ func genUCase(o uOpts) func(t *rapid.T) UCase {
 				} else {
 					op.Key = rapid.IntRange(0, n-1).Draw(t, "key")
 				}
-				op.Mut = rapid.SampledFrom([]string{"none", "none", "none", "none", "none", "trunc", "flip", "random", "badaddr", "shortaddr"}).Draw(t, "mut")
+				op.Mut = rapid.SampledFrom([]string{"none", "none", "none", "none", "none", "trunc", "flip", "random", "badaddr", "shortaddr", "port0"}).Draw(t, "mut")
 				switch op.Mut {
 				case "trunc":
 					op.MutArg = rapid.IntRange(0, 80).Draw(t, "truncAt")
@@ -290,6 +290,8 @@ func (w *uWorld) buildDatagram(op UOp) (pkt []byte, keySpec kit.KeySpec) {
 	tgt := w.targets[op.Target]
 	addr := kit.SocksAddr(tgt.Addr.IP.String(), tgt.Addr.Port, false)
 	switch op.Mut {
+	case "port0":
+		addr = kit.SocksAddr(tgt.Addr.IP.String(), 0, false) // a legal address the kernel refuses to send to
 	case "badaddr":
 		addr = append([]byte{byte(op.MutArg)}, addr[1:]...)
 	case "shortaddr":
@@ -399,17 +401,19 @@ func (w *uWorld) doSend(i int, op UOp) *kit.Finding {
 		}
 	}
 	var payload []byte
-	addrOK := false
+	addrOK, unsendable := false, false
 	if opens {
 		if host, port, n, err := kit.ParseSocksAddr(plain); err == nil {
 			tgt := w.targets[op.Target]
 			if ip := net.ParseIP(host); ip != nil && ip.Equal(tgt.Addr.IP) && port == tgt.Addr.Port {
 				addrOK, payload = true, plain[n:]
+			} else if ip != nil && ip.Equal(tgt.Addr.IP) && port == 0 {
+				addrOK, unsendable = true, true
 			}
 		}
 	}
 	allowedDst := w.c.Targets[op.Target] != "v4x"
-	expectForward := opens && addrOK && allowedDst
+	expectForward := opens && addrOK && allowedDst && !unsendable
 	rec := uSendRec{Op: i, Client: op.Client, WireLen: len(pkt), Forwarded: expectForward, PayloadLen: len(payload)}
 	switch {
 	case a != nil && !opens:
@@ -418,6 +422,9 @@ func (w *uWorld) doSend(i int, op UOp) *kit.Finding {
 		rec.OnAssoc, rec.Status = true, "ERR_READ_ADDRESS"
 	case a != nil && !allowedDst:
 		rec.OnAssoc, rec.Status = true, "ERR_ADDRESS_INVALID"
+	case unsendable:
+		// passes authentication and the destination policy, so it creates (or arrives on) an association; the send fails
+		rec.OnAssoc, rec.Status = true, "ERR_WRITE"
 	case expectForward:
 		rec.OnAssoc, rec.Status = true, "OK"
 	}
@@ -536,6 +543,19 @@ func (w *uWorld) doSend(i int, op UOp) *kit.Finding {
 	if len(stray) > 0 {
 		return kit.Violation("udp:forwarded-unauthenticated", "op %d: datagram that must not be forwarded (opens=%v addrOK=%v known=%v mut=%s) caused outbound traffic: %v", i, opens, addrOK, a != nil, op.Mut, stray)
 	}
+	if a == nil && unsendable && allowedDst {
+		var r *kit.RecUDPAssoc
+		if !kit.WaitFor(uBound, func() bool { r = w.findRec(cl.Addr.String(), nAssocBefore); return r != nil }) {
+			return kit.Violation("udp:assoc-not-reported", "op %d: an authenticated datagram with an allowed destination created no association (its send failed, but it is the client's datagram that creates the association)", i)
+		}
+		na := &uAssoc{Client: op.Client, Gen: len(w.all), Key: matched[0], NatSrc: map[string]string{}, targets: map[int]bool{}, Rec: r, LastWrite: sentAt}
+		w.assoc[op.Client] = na
+		w.all = append(w.all, na)
+		na.Sends = append(na.Sends, withGen(rec, na.Gen))
+		w.info.Class("assoc-created-by-unsendable-datagram")
+		w.info.NonTrivial = true
+		return nil
+	}
 	if a == nil {
 		if r := w.findRec(cl.Addr.String(), nAssocBefore); r != nil {
 			return kit.Violation("udp:assoc-without-auth", "op %d: an association was created for client %v by a datagram that must not create one (opens=%v addrOK=%v)", i, cl.Addr, opens, addrOK)
@@ -548,6 +568,9 @@ func (w *uWorld) doSend(i int, op UOp) *kit.Finding {
 		}
 	} else {
 		a.Sends = append(a.Sends, withGen(rec, a.Gen))
+		if unsendable && allowedDst {
+			a.LastWrite = sentAt
+		}
 		w.info.Class("invalid-on-live-assoc")
 		w.info.NonTrivial = true
 	}
